@@ -3,6 +3,7 @@ import Bch.Tie.Bech32
 import Bch.Tie.Base58
 import Bch.Tie.HD
 import Bch.Tie.Gcs
+import Bch.Tie.GcsImmutable
 import Bch.Tie.Limits
 import Bch.Tie.Amount
 import Bch.Tie.Locking
